@@ -246,6 +246,40 @@ fn shapes(tier: Tier) -> Vec<Shape> {
             }
         }
     }
+    // errors that no function raises (missing input field, unknown symbol, division by zero, type
+    // error, failed cast) as the first operand of a nested node, next to probes: an error raised
+    // anywhere inside an operand ends the evaluation, whatever the node around it is
+    {
+        let error_leaves: Vec<(&str, RE)> = vec![
+            ("missing-field", RE::reff("missing")),
+            ("unknown-symbol", RE::Sym("nosuch".into())),
+            ("division-by-zero", RE::bin(BinOp::Div, RE::Val(RV::Int(1)), RE::Val(RV::Int(0)))),
+            ("type-error", RE::bin(BinOp::Add, RE::Val(RV::Int(1)), RE::Val(RV::str("a")))),
+            ("failed-cast", RE::un(UnOp::Int, RE::Val(RV::str("zz")))),
+        ];
+        let n_err = tier.pick(3usize, 5usize);
+        for parent in ks.iter().filter(|k| k.arity >= 2) {
+            for pos in 0..parent.arity {
+                for child in &ks {
+                    for (ename, eleaf) in error_leaves.iter().take(n_err) {
+                        for epos in 0..child.arity {
+                            let mut n = 0;
+                            let mut children = Vec::new();
+                            for i in 0..parent.arity {
+                                if i == pos {
+                                    let cc: Vec<RE> = (0..child.arity).map(|j| if j == epos { eleaf.clone() } else { probe_leaf(&mut n) }).collect();
+                                    children.push((child.build)(cc));
+                                } else {
+                                    children.push(probe_leaf(&mut n));
+                                }
+                            }
+                            out.push(Shape { label: format!("{}[{}]={}[{}]={}", parent.label, pos, child.label, epos, ename), tree: (parent.build)(children) });
+                        }
+                    }
+                }
+            }
+        }
+    }
     // thorough: every child position of multi-child parents nested at once, children from a
     // representative set of lazy and strict kinds
     if tier == Tier::Thorough {
